@@ -129,34 +129,36 @@ type FnCtx struct {
 	nheap     int
 	ordinals  map[string]int
 
-	allocIDs   map[ssa.Value]int
-	unescaped  map[ssa.Value]bool
-	allocRefs  map[ssa.Value]Val
-	nalloc     int
-	loops      map[*ssa.BasicBlock]*loopInfo
-	loopOrder  []*ssa.BasicBlock
-	backEdge   map[[2]int]bool
-	order      []*ssa.BasicBlock
-	posText    map[token.Pos]string
-	cur        *ssa.BasicBlock
-	curIdx     int
-	curInstr   ssa.Instruction
+	allocIDs    map[ssa.Value]int
+	unescaped   map[ssa.Value]bool
+	allocRefs   map[ssa.Value]Val
+	nalloc      int
+	loops       map[*ssa.BasicBlock]*loopInfo
+	loopOrder   []*ssa.BasicBlock
+	backEdge    map[[2]int]bool
+	order       []*ssa.BasicBlock
+	posText     map[token.Pos]string
+	cur         *ssa.BasicBlock
+	curIdx      int
+	retReach    []string
+	wfSeen      map[string]bool
+	curInstr    ssa.Instruction
 	regionSorts map[string]string
-	reachM     map[int]map[int]bool
-	curReach   string
-	heap       *Heap
-	ghost      map[string]string
-	ghostSort  map[string]string
-	ghost0     map[string]string
-	defers     []deferred
-	subrefSeen map[string]bool
-	strLits    map[string]string
-	debugRefs  map[types.Object][]*ssa.DebugRef
-	paramVals  map[string]Val
-	retBlocks  []*ssa.BasicBlock
-	props      []string
-	curLoopPre map[*ssa.BasicBlock]*Heap
-	failedBind []string
+	reachM      map[int]map[int]bool
+	curReach    string
+	heap        *Heap
+	ghost       map[string]string
+	ghostSort   map[string]string
+	ghost0      map[string]string
+	defers      []deferred
+	subrefSeen  map[string]bool
+	strLits     map[string]string
+	debugRefs   map[types.Object][]*ssa.DebugRef
+	paramVals   map[string]Val
+	retBlocks   []*ssa.BasicBlock
+	props       []string
+	curLoopPre  map[*ssa.BasicBlock]*Heap
+	failedBind  []string
 }
 
 type deferred struct {
